@@ -157,7 +157,34 @@ theorem T18_hdist_eq_weight_xor (a b : List Bool) (h : a.length = b.length) :
 theorem T18_hdistIdx_length (a b : List Bool) :
     (hammingDistanceIdx a b).length = hammingDistanceBits a b := rfl
 
+/-- `return_indexes=True`: `k` is reported iff the zero-padded strings differ at position `k`
+(positions of the padded common-length strings). -/
+theorem T18_hdistIdx_mem (a b : List Bool) (k : Nat) :
+    k ∈ hammingDistanceIdx a b ↔ (diffBits a b)[k]? = some true :=
+  T18_onesIdx_mem (diffBits a b) k
+
+/-- every reported index is a position of the padded string. -/
+theorem T18_hdistIdx_lt (a b : List Bool) (k : Nat) (h : k ∈ hammingDistanceIdx a b) :
+    k < max a.length b.length := by
+  rw [T18_hdistIdx_mem] at h
+  rw [← T18_diffBits_length a b]
+  exact (List.getElem?_eq_some_iff.mp h).1
+
 /-! ### Hamming distance on naturals -/
+
+/-- integers: the index list has `hamming_distance` entries and lists the positions where the
+padded binary strings `f"{a:b}"`, `f"{b:b}"` differ. -/
+theorem T18_hdistNatIdx (a b : Nat) :
+    (hammingDistanceNatIdx a b).length = hammingDistanceNat a b
+      ∧ ∀ k, k ∈ hammingDistanceNatIdx a b ↔ (diffBits (bitsOfNat a) (bitsOfNat b))[k]? = some true :=
+  ⟨rfl, fun k => T18_hdistIdx_mem _ _ k⟩
+
+/-- the index list of `a xor b` taken on its own is a different list in general: `0b11111` vs
+`0b10101` differ at positions 1 and 3 of the 5-digit strings, while `f"{a ^ b:b}" = "1010"`
+has its ones at positions 0 and 2. -/
+theorem T18_hdistNatIdx_not_xor_positions :
+    hammingDistanceNatIdx 31 21 = [1, 3] ∧ hammingWeightNatIdx (31 ^^^ 21) = [0, 2] := by decide +kernel
+
 
 theorem T18_hdistNat_comm (a b : Nat) : hammingDistanceNat a b = hammingDistanceNat b a :=
   T18_hdist_comm _ _
